@@ -112,6 +112,9 @@ func (r *Run) store(p Ptr, v Value, t types.Type) {
 	if r.nthreads > 1 {
 		r.recordAccess(p.A, p.I, true)
 	}
+	if r.aliases != nil && !p.A.Box {
+		r.checkAliasWrite(p)
+	}
 	if r.local != nil {
 		root := p.A
 		for root.P != nil {
@@ -451,6 +454,7 @@ func (r *Run) loadView(v *View, t types.Type) Value {
 	// special case: *(*string)(unsafe.Pointer(&byteSlice))
 	if isString(t) && v.Off == 0 && v.Root.Box {
 		if sl, ok := r.rd(v.Root)[0].(Slice); ok {
+			r.noteAlias(sl)
 			return Str{r.sliceBytes(sl)}
 		}
 		if s, ok := r.rd(v.Root)[0].(Str); ok {
@@ -527,4 +531,43 @@ func (r *Run) newByteSlice(b []*smt.Term) Slice {
 		a.E[i] = t
 	}
 	return Slice{A: a, Len: len(b), Cap: len(b)}
+}
+
+// Strings made by reinterpreting a byte slice (unsafe) share its backing array. The engine's strings
+// are snapshots, so instead of modelling the sharing it reports the one thing that makes the sharing
+// observable: a later write into the range such a string covers (strings must stay immutable).
+type aliasRange struct{ off, n int }
+
+func (r *Run) noteAlias(sl Slice) {
+	if sl.A == nil || sl.Len == 0 {
+		return
+	}
+	if r.aliases == nil {
+		r.aliases = map[*Agg][]aliasRange{}
+	}
+	r.aliases[sl.A] = append(r.aliases[sl.A], aliasRange{sl.Off, sl.Len})
+}
+
+func (r *Run) checkAliasWrite(p Ptr) {
+	rs := r.aliases[p.A]
+	if rs == nil {
+		return
+	}
+	lo, hi := p.I, p.I+1
+	if p.SI != nil {
+		lo, hi = p.I, p.N
+	}
+	for _, a := range rs {
+		if lo < a.off+a.n && hi > a.off {
+			label := r.E.Cfg.Prop + "/string-backing-array-overwritten"
+			if r.E.labelActive(label) {
+				res, m := r.check(r.allVars())
+				if res == smt.Sat {
+					r.recordViolation(label, "a byte slice that was reinterpreted as a string (unsafe) is written again: the string's content changes under its holder", m)
+				}
+			}
+			delete(r.aliases, p.A)
+			return
+		}
+	}
 }
